@@ -795,6 +795,29 @@ class Executor:
                 env[ins["name"]] = Ptr(x.obj, x.path, x.off)
         elif op == "DebugRef":
             pass
+        elif op == "Defer":
+            c = ins["call"]
+            args = [V(a) for a in c["args"]]
+            if c["mode"] == "static":
+                fname, bindings = c["fn"], ()
+            elif c["mode"] == "dynamic":
+                f = V(c["fnval"])
+                if not isinstance(f, Closure):
+                    raise ExecError("defer of %r" % (f,))
+                fname, bindings = f.fn, f.bindings
+            else:
+                raise ExecError("defer mode " + c["mode"])
+            if fr.tag is None:
+                fr.tag = []
+            fr.tag = list(fr.tag) + [(fname, args, bindings)]
+        elif op == "RunDefers":
+            if fr.tag:
+                stack = list(fr.tag)
+                fname, args, bindings = stack.pop()
+                fr.tag = stack
+                fr.ip -= 1          # come back to RunDefers after the deferred call returns
+                self.invoke(path, fr, fname, args, bindings, None)
+                return
         else:
             raise ExecError("unsupported instruction %s in %s: %s" % (op, fr.fn["name"], ins.get("text", "")))
         fr.ip += 1
